@@ -57,6 +57,8 @@ class Engine:
         self.exits = 0
         self._pure_cache = {}
         self.cur_inline = None
+        self.deadline = None
+        self.budget_hit = False
 
     # ------------------------------------------------------------------ utils
     def note(self, text):
@@ -74,6 +76,9 @@ class Engine:
         return ax
 
     def feasible(self, st, extra=None):
+        if self.deadline is not None and time.time() > self.deadline + 30:
+            self.budget_hit = True
+            raise Unsupported('time budget per function exhausted during path exploration')
         a = list(st.pc)
         if extra is not None:
             a.append(extra)
@@ -88,6 +93,14 @@ class Engine:
             ob.verdict = 'unsat'
             ob.backend = 'simplifier'
             self.obligations.append(ob)
+            return
+        if self.deadline is not None and time.time() > self.deadline:
+            # per-function time budget exhausted: the obligation is left undecided (never a verdict)
+            ob.verdict = 'unknown'
+            ob.backend = 'budget'
+            ob.trace = list(st.trace)
+            self.obligations.append(ob)
+            self.budget_hit = True
             return
         q = list(st.pc) + self.base_axioms() + [NOT(goal)]
         ob.size = sum(len(str(x)) for x in q[-3:]) if False else len(q)
